@@ -212,11 +212,17 @@ func genGoFile(r *rand.Rand, fi int, big bool) File {
 		if big {
 			nm = r.Intn(6)
 		}
+		// receiver variable: first letter of the type in lower case (never one of the parameter / field names)
 		rv := string([]rune(sn)[0:1])
 		if rv >= "A" && rv <= "Z" {
 			rv = string(rune(rv[0] + 32))
 		} else {
 			rv = "self"
+		}
+		for _, v := range goVarNames {
+			if v == rv {
+				rv = "recv"
+			}
 		}
 		for _, mn := range pickDistinct(r, goMethNames, nm, "") {
 			d := GoDecl{K: "method", Name: mn, Recv: sn, Ptr: r.Intn(2) == 0, Rv: rv}
@@ -264,7 +270,7 @@ var pyClassNames = []string{"A", "B", "Blog", "UserRepo", "_Hidden", "node", "Ha
 var pyFuncNames = []string{"f", "g", "main", "Build", "helper_fn", "_setup", "run2", "Parse"}
 var pyMethNames = []string{"__init__", "m", "n", "get", "save", "__str__", "to_dict", "Run", "close"}
 var pyDecoNames = []string{"staticmethod", "classmethod", "property", "app.route", "pytest.fixture", "dataclass", "functools.wraps", "d"}
-var pyDecoArgs = []string{`"/x"`, "1", "int", "name=1", "int,str"}
+var pyDecoArgs = []string{`"/x"`, "1", "int", "int,str"} // positional; a keyword argument may follow them
 var pyNestedNames = []string{"inner", "wrapper", "_loop", "nested1", "cb", "helper2", "deco_inner", "gen", "visit", "step"}
 
 func genDecos(r *rand.Rand, max int) []PyDeco {
@@ -272,8 +278,11 @@ func genDecos(r *rand.Rand, max int) []PyDeco {
 	for n := r.Intn(max + 1); n > 0; n-- {
 		d := PyDeco{Name: pyDecoNames[r.Intn(len(pyDecoNames))], Args: []string{}}
 		if r.Intn(3) == 0 {
-			for k := 1 + r.Intn(2); k > 0; k-- {
+			for k := r.Intn(3); k > 0; k-- {
 				d.Args = append(d.Args, pyDecoArgs[r.Intn(len(pyDecoArgs))])
+			}
+			if len(d.Args) == 0 || r.Intn(3) == 0 {
+				d.Args = append(d.Args, "name=1")
 			}
 		}
 		out = append(out, d)
@@ -287,9 +296,14 @@ func genPyFile(r *rand.Rand, fi int, big bool, knownShapes bool) File {
 	if fi > 0 {
 		suffix = fmt.Sprintf("_%d", fi)
 	}
-	alias := func(p int) string {
+	usedAlias := map[string]bool{}
+	alias := func(p int) string { // distinct aliases within one file
 		if r.Intn(100) < p {
-			return pyAliases[r.Intn(len(pyAliases))]
+			a := pyAliases[r.Intn(len(pyAliases))]
+			if !usedAlias[a] {
+				usedAlias[a] = true
+				return a
+			}
 		}
 		return ""
 	}
